@@ -28,7 +28,37 @@ def _float_leaves_perturbed(r, rng):
     return r
 
 
+class OracleTimeout(Exception):
+    pass
+
+
+def _on_alarm(signum, frame):
+    raise OracleTimeout()
+
+
 def _judge_one(args):
+    """Bounded: an oracle evaluation that does not finish within ORACLE_BUDGET_S seconds is 'inconclusive', never a verdict."""
+    import signal
+    key = args[0]
+    try:
+        old = signal.signal(signal.SIGALRM, _on_alarm)
+        signal.setitimer(signal.ITIMER_REAL, ORACLE_BUDGET_S)
+    except ValueError:      # not in the main thread: run unbounded
+        old = None
+    try:
+        return _judge_one_inner(args)
+    except OracleTimeout:
+        return key, 'inconclusive', 'oracle timeout'
+    finally:
+        if old is not None:
+            signal.setitimer(signal.ITIMER_REAL, 0)
+            signal.signal(signal.SIGALRM, old)
+
+
+ORACLE_BUDGET_S = 20
+
+
+def _judge_one_inner(args):
     key, spec, res, kinds, seed, tol, kind, npoints = args
     rng = random.Random(seed)
     try:
